@@ -577,8 +577,27 @@ def refine_sig(sig, case_lines, detail):
     return sig
 
 
+def typed_value_probes():
+    """C04 value clause (typed-getter-returns-set-value): every typed DHCP / DHCPv6 setter once on a fresh object with an
+    argument whose octets are all different (a byte-order, member-order or off-by-one error cannot hide in a palindrome),
+    directly followed by `show`; deterministic, so every seed covers every codec"""
+    ip6a = "20010db8000000000102030405060708"
+    dhcp = ["type 5", "server_identifier c0a80001", "lease_time 16909060", "renewal_time 84281096", "rebind_time 151653132",
+            "subnet_mask ffffff00", "routers c0a80001,c0a80102,0a000003", "domain_name_servers 08080404,01020304",
+            "broadcast c0a800ff", "requested_ip c0a80142", "domain_name 6578616d706c652e6f7267", "hostname 686f73742d31"]
+    dhcp6 = ["ia_na 16909060 84281096 151653132 0102", "ia_ta 16909060 0a0b0c", f"ia_address {ip6a} 16909060 84281096 0d0e",
+             "option_request 23,24,258", "preference 7", "elapsed_time 258", "relay_message 01020304", f"server_unicast {ip6a}",
+             "status_code 258 6f6b", "rapid_commit", "user_class 0102,03", "vendor_class 16909060 0a0b,0c", "vendor_info 16909060 0102",
+             "interface_id 0a0b0c0d", "reconfigure_msg 5", "reconfigure_accept", "client_id 258 0a0b0c0d", "server_id 513 0e0f"]
+    ops = []
+    for cls, table in (("DHCP", dhcp), ("DHCPv6", dhcp6)):
+        for t in table:
+            ops += ["new", f"push {cls}", f"set 0 {t}", "show"]
+    return ops
+
+
 def gen_build(rng, n):
-    ops = known_finding_probes()
+    ops = known_finding_probes() + typed_value_probes()
     if n < 20000:
         n *= 2
     while len(ops) < n:
